@@ -63,6 +63,11 @@ DEBUG_EXCEPTIONS = False
 # integer precicion when shown in any messages.
 HTTP_CONNECT_TIMEOUT = 9.99
 
+# Characters that are not %-escaped in the values of the CIM-XML extension
+# headers: The printable ASCII characters except the escape character.
+HEADER_VALUE_SAFE_CHARS = ''.join(
+    chr(c) for c in range(0x20, 0x7F) if chr(c) != '%')
+
 # Regexp pattern for an entire URL, with parsing items:
 # (1) scheme (optional)
 # (2) host (required) - may contain brackets and colons for IPv6 addresses
@@ -483,7 +488,14 @@ def wbem_request(conn, req_data, cimxml_headers, target_type='server'):
         'Content-type': 'application/xml; charset="utf-8"',
         'Content-length': f'{len(req_body)}',
     }
-    req_headers.update(dict(cimxml_headers))
+    # The two-step encoding of the CIM-XML extension header values that is
+    # required by DSP0200: UTF-8, then %-escaping of every byte that is not
+    # a printable ASCII character, and of the escape character itself.
+    for hdr_name, hdr_value in dict(cimxml_headers).items():
+        if isinstance(hdr_value, bytes):
+            hdr_value = hdr_value.decode('utf-8')
+        req_headers[hdr_name] = urllib.parse.quote(
+            hdr_value, safe=HEADER_VALUE_SAFE_CHARS)
 
     if target_type == 'server' and conn.creds is not None:
         auth = f'{conn.creds[0]}:{conn.creds[1]}'
